@@ -228,11 +228,15 @@ func (u *Unit) Run() {
 	st.entry.entry = nil
 	// requires
 	if u.spec != nil {
-		for _, c := range u.spec.Requires {
+		for _, c := range append(append([]*Clause{}, u.spec.Requires...), u.spec.Defines...) {
 			env := st.newEnv(fr, nil)
+			env.post = true
 			t := env.evalBool(c.E)
 			st.assumeAll(env.defs)
 			st.assume(t)
+		}
+		if len(u.spec.Defines) > 0 {
+			u.eng.assumes["ghost definitions ('define' clauses: recursive prefix sums / counts as uninterpreted functions with their recurrence assumed at entry) in "+u.key] = true
 		}
 		// the pre-state for old() must include the requires-facts' heap reads; re-snapshot
 		ent := st.clone()
